@@ -360,6 +360,8 @@ def _cleanup():
 
 
 def run(ctx, res):
+    from harness.impl import linkfile
+    linkfile.run_all(res, ID, which=("fails",))      # the file is a symbolic link; a directory operation of the save fails
     cases = [with_initial(c) for c in gen_cases(ctx)]
     jobs = 16 if ctx.tier == "thorough" or ctx.scale > 1 else 8
     obs_all = run_impl(cases, jobs)
@@ -428,6 +430,9 @@ def run(ctx, res):
 
 def replay(ctx, case):
     c = case["case"] if "case" in case else case
+    if c.get("kind") == "linked-file":
+        from harness.impl import linkfile
+        return linkfile.replay(c)
     if not c["steps"] or c["steps"][0].get("op") != "init":
         c = with_initial(c)
     obs = impl_case(c)
